@@ -261,7 +261,18 @@ def store_check(prop, model_cfgs, gen_cfgs, quick_n, thorough_n, kinds_note, inv
             behs = rb
         drv = V.build_driver("store")
         # C08 also asks for proofs while one read of the query fails (an error or the right proof, never another proof)
-        tf, index = run_driver_parallel(drv, behs, sc, extra_args=(["-readfaultqueries", "3"] if prop == "C08" else []))
+        try:
+            tf, index = run_driver_parallel(drv, behs, sc, extra_args=(["-readfaultqueries", "3"] if prop == "C08" else []))
+        except V.NodePanic as e:
+            if prop not in ("C01", "C11"):
+                raise
+            # the syncer's own code panicked while it processed blocks (no fault is injected in these checks): the block was not
+            # processed and the node is gone
+            res.add_violation("FaultFreeProcessFailed: %s" % e, dict(panic=str(e), behaviours=behs[:3]))
+            res.coverage = dict(explanation="the code under test panicked during the replay", evaluations=0, distinct_nontrivial=0,
+                                states=sum(m["distinct"] for m in mcs), transitions=sum(m["generated"] for m in mcs),
+                                traces_validated_against_impl=0, samples=behs[:1])
+            res.finish()
         info = V.validate_traces_chunked("StoreTrace.tla", "StoreTrace.cfg", tf, sc, lambda ln: bool(_RESET.search(ln[:300])),
                                          per_chunk=1500, parallel=4, timeout=3000, heap="6g")
         if not info["consumed_ok"]:
